@@ -467,8 +467,22 @@ impl World {
             "insert" => {
                 let Some(hs) = arg(line, "hs") else { return "bad-op".into() };
                 let mut v = vec![];
-                for e in hs.split(',') {
+                // S9: `hs=_` is the empty batch
+                for e in hs.split(',').filter(|e| *e != "_") {
                     let name = e.split('^').next().unwrap_or("");
+                    // S9: `base!hashof` = an UNVALIDATED copy of pool header `base` whose commit block-id hash
+                    // (what `hash()` returns, i.e. the key of STORE.HEIGHTS) is that of pool header `hashof`
+                    if let Some((base, hashof)) = name.split_once('!') {
+                        match (self.pool.get(base), self.pool.get(hashof)) {
+                            (Some(b), Some(ho)) => {
+                                let mut m = b.clone();
+                                m.commit.block_id.hash = ho.hash();
+                                v.push(m);
+                            }
+                            _ => return format!("bad-op unknown-header-{name}"),
+                        }
+                        continue;
+                    }
                     match self.pool.get(name) {
                         Some(h) => v.push(h.clone()),
                         None => return format!("bad-op unknown-header-{name}"),
@@ -613,8 +627,15 @@ impl World {
         match r {
             Ok(Ok(s)) => format!("reopen ok {s}"),
             // redb's allocator state on the medium is stale: the first write transaction
-            // (RedbStore::new's) panics inside redb's page allocator (task id stripped)
-            Ok(Err(e)) if e.starts_with("store-open:") && e.contains("which_is_not_allocated") => {
+            // (RedbStore::new's) panics inside redb's page allocator (task id stripped).  `BuddyAllocator::free`
+            // (redb 2.6.3 buddy_allocator.rs:533-538) opens with TWO consecutive assertions about the page being
+            // freed: `debug_assert!(self.get_order_free_mut(order).get(page_number))` and
+            // `debug_assert!(…allocated…, "Attempted to free page …, which is not allocated")`; which of the
+            // two fires depends on the stale bitmaps (S9: the first one had not been seen before)
+            Ok(Err(e))
+                if e.starts_with("store-open:")
+                    && (e.contains("which_is_not_allocated") || e.contains("self.get_order_free_mut(order).get(page_number)")) =>
+            {
                 "reopen err allocator-corrupt".to_string()
             }
             Ok(Err(e)) => format!("reopen err {e}"),
@@ -796,7 +817,50 @@ fn stored_of(dump: &str) -> std::collections::BTreeMap<u64, char> {
 
 /// choose the next operation from the real store's current content (mostly valid operations,
 /// plus every kind of rejected one)
-fn next_op(rng: &mut Rng, st: &std::collections::BTreeMap<u64, char>, fork_at: u64) -> (String, &'static str) {
+/// heights that carry sampling metadata, from the canonical dump
+fn meta_heights(dump: &str) -> Vec<u64> {
+    match arg(dump, "meta") {
+        Some(m) if m != "_" => m.split(',').filter_map(|e| e.split_once(':').and_then(|(h, _)| h.parse().ok())).collect(),
+        _ => vec![],
+    }
+}
+
+/// S9: a batch at the head whose LAST header repeats the hash of a stored header (`base!hashof`): the redb
+/// transaction has already written the headers before it when `HashExists` aborts it
+fn dup_hash_op(rng: &mut Rng, st: &std::collections::BTreeMap<u64, char>, fork_at: u64, lead: u64) -> (String, &'static str) {
+    let stored: Vec<u64> = st.keys().cloned().collect();
+    let max = *stored.last().unwrap();
+    let c = st[&max];
+    let src = *rng.pick(&stored);
+    let mut hs: Vec<String> = (max + 1..max + 1 + lead).map(|h| header(c, h, fork_at)).collect();
+    let last = header(c, max + 1 + lead, fork_at);
+    let (name, parent) = last.split_once('^').unwrap();
+    hs.push(format!("{name}!{}{src}^{parent}", st[&src]));
+    (format!("insert hs={}", hs.join(",")), if lead == 0 { "insert/dup-hash-single" } else { "insert/dup-hash-batch-tail" })
+}
+
+/// S9: `meta` on a height that already has metadata, the new list overlapping the stored one (and itself)
+fn meta_again_op(rng: &mut Rng, dump: &str, h: u64) -> (String, &'static str) {
+    let have: Vec<u64> = arg(dump, "meta")
+        .and_then(|m| m.split(',').find_map(|e| e.split_once(':').filter(|(k, _)| k.parse() == Ok(h)).map(|(_, c)| c.to_string())))
+        .map(|c| c.split('.').filter_map(|x| x.parse().ok()).collect())
+        .unwrap_or_default();
+    let mut cids: Vec<u64> = vec![];
+    if let Some(&x) = have.first() {
+        cids.push(x); // already stored: must not be appended again
+    }
+    let fresh = rng.range(7, 9);
+    cids.push(fresh);
+    cids.push(fresh); // repeated inside the new list: appended once
+    if let Some(&x) = have.last() {
+        cids.push(x);
+    }
+    cids.push(rng.range(1, 6));
+    (format!("meta h={h} cids={}", natl(&cids)), "meta/merge-overlapping")
+}
+
+fn next_op(rng: &mut Rng, dump: &str, fork_at: u64) -> (String, &'static str) {
+    let st = &stored_of(dump);
     let stored: Vec<u64> = st.keys().cloned().collect();
     let k = rng.below(100);
     if stored.is_empty() {
@@ -838,7 +902,13 @@ fn next_op(rng: &mut Rng, st: &std::collections::BTreeMap<u64, char>, fork_at: u
         let hs: Vec<String> = (lo..=hi).map(|h| header(chain, h, fork_at)).collect();
         (format!("insert hs={}", hs.join(",")), "insert/gap-fill")
     } else if k < 64 {
-        match rng.below(4) {
+        match rng.below(7) {
+            4 => ("insert hs=_".to_string(), "insert/empty-batch"),
+            5 => dup_hash_op(rng, st, fork_at, 0),
+            6 => {
+                let lead = rng.range(1, 2);
+                dup_hash_op(rng, st, fork_at, lead)
+            }
             0 => {
                 let h = *rng.pick(&stored);
                 (format!("insert hs={},{}", header(st[&h], h, fork_at), header(st[&h], h + 1, fork_at)), "insert/overlap")
@@ -861,6 +931,11 @@ fn next_op(rng: &mut Rng, st: &std::collections::BTreeMap<u64, char>, fork_at: u
         let h = if rng.chance(4, 5) { *rng.pick(&stored) } else { rng.range(1, 59) };
         (format!("mark h={h}"), "mark")
     } else if k < 88 {
+        let with_meta: Vec<u64> = meta_heights(dump).into_iter().filter(|h| st.contains_key(h)).collect();
+        if !with_meta.is_empty() && rng.chance(1, 2) {
+            let h = *rng.pick(&with_meta);
+            return meta_again_op(rng, dump, h);
+        }
         let h = if rng.chance(4, 5) { *rng.pick(&stored) } else { rng.range(1, 59) };
         let n = rng.usize(0, 3);
         let cids: Vec<u64> = (0..n).map(|_| rng.range(1, 6)).collect();
@@ -999,7 +1074,7 @@ impl Prop for C22 {
     }
     fn gen_ops(&mut self, rng: &mut Rng, tier: Tier, out: &mut Emitter) {
         let (histories, max_ops, seeds) = if tier == Tier::Thorough { (40, 24, 8) } else { (5, 10, 2) };
-        for _ in 0..histories {
+        for hist in 0..histories {
             let mut w = World::new(self.rt.clone());
             out.op("reset", "reset", false);
             let fork_at = rng.range(3, 12);
@@ -1011,12 +1086,48 @@ impl Prop for C22 {
             // database (multi-crash); most histories crash twice
             let go_at: Vec<usize> = vec![rng.usize(1, n_ops.max(1)), rng.usize(1, n_ops.max(1))];
             let mut prev_ep = 0usize;
+            // S9: every history REPLACES two of its random operations (so the number of operations, and with it
+            // the number of crash points, stays what it was) by the classes the random mix rarely reaches in
+            // 5..10 operations: a second `meta` on a height that has metadata (merge branch), an insert whose last
+            // header repeats a stored hash (`HashExists` after the transaction has written), the empty batch
+            let forced_at = [n_ops.saturating_sub(1).max(2), n_ops.max(3)];
             for i in 0..=n_ops {
                 // choose the next operation from what the real store holds now, run it
+                let dump = w.expect.last().cloned().unwrap_or_default();
+                let st = stored_of(&dump);
+                let forced = if i >= 2 && forced_at.contains(&i) && !st.is_empty() {
+                    let with_meta: Vec<u64> = meta_heights(&dump).into_iter().filter(|h| st.contains_key(h)).collect();
+                    let second = i == forced_at[1];
+                    Some(match (hist % 3, second) {
+                        (0, false) if with_meta.is_empty() => {
+                            let h = *st.keys().next_back().unwrap();
+                            (format!("meta h={h} cids=1,2"), "meta")
+                        }
+                        (0, _) if !with_meta.is_empty() => {
+                            let h = *rng.pick(&with_meta);
+                            meta_again_op(rng, &dump, h)
+                        }
+                        (0, _) => (format!("meta h={} cids=2,3", st.keys().next().unwrap()), "meta"),
+                        (1, false) => dup_hash_op(rng, &st, fork_at, 0),
+                        (1, true) => ("insert hs=_".to_string(), "insert/empty-batch"),
+                        (_, false) => {
+                            let lead = rng.range(1, 2);
+                            dup_hash_op(rng, &st, fork_at, lead)
+                        }
+                        (_, true) => match with_meta.first() {
+                            Some(&h) => meta_again_op(rng, &dump, h),
+                            None => (format!("meta h={} cids=4,4,5", st.keys().next_back().unwrap()), "meta"),
+                        },
+                    })
+                } else {
+                    None
+                };
                 let (line, tag) = if i == 0 {
                     ("open".to_string(), "open")
+                } else if let Some(f) = forced {
+                    f
                 } else {
-                    next_op(rng, &stored_of(w.expect.last().unwrap()), fork_at)
+                    next_op(rng, &dump, fork_at)
                 };
                 let res = w.exec(&line);
                 if res.starts_with("bad-op") {
